@@ -744,3 +744,45 @@ _run_c02d = run
 def run(ctx):  # noqa: F811
     _run_c02d(ctx)
     r02_11(ctx, ctx.model)
+
+
+# ---------------------------------------------------------------------------------------------------------------- R02.14
+def r02_14(ctx, m, rid="R02.14"):
+    """volume-weighted reductions are not self-adjoint: an apply that uses one needs a separate adjoint branch"""
+    ctx.rule(rid, "LinearOperator.apply with ADJOINT_TIMES: a volume-weighted reduction of the input (s_mean / mean / integrate / "
+                  "s_integrate / weight) is the operator 1 w^T / V, whose adjoint w 1^T / V is a different map wherever the pixel "
+                  "volumes are not uniform - an apply that uses one therefore distinguishes the modes (a formula that only forwards "
+                  "`mode` to an inner operator is the adjoint on regular grids only)", floor=1)
+    base = m.cls("nifty.cl.operators.linear_operator", "LinearOperator")
+    red = {"s_mean", "mean", "integrate", "s_integrate", "weight"}
+    n = 0
+    for mod in m.modules.values():
+        if not mod.name.startswith("nifty.cl."):
+            continue
+        for c in mod.classes.values():
+            if base not in m.mro(c):
+                continue
+            ap = c.methods.get("apply")
+            if ap is None or len(ap.params()) < 3:
+                continue
+            xn, mn = ap.params()[1], ap.params()[2]
+            uses = [z for z in ast.walk(ap.node) if isinstance(z, ast.Call) and isinstance(z.func, ast.Attribute) and z.func.attr in red
+                    and any(isinstance(q, ast.Name) and q.id == xn for q in ast.walk(z.func.value))]
+            if not uses:
+                continue
+            n += 1
+            ctx.saw_func(ap)
+            branches = any(isinstance(z, ast.Compare) and any(isinstance(q, ast.Name) and q.id == mn for q in ast.walk(z)) for z in ast.walk(ap.node)) or \
+                any(isinstance(z, ast.BinOp) and isinstance(z.op, ast.BitAnd) and any(isinstance(q, ast.Name) and q.id == mn for q in ast.walk(z)) for z in ast.walk(ap.node))
+            ctx.check(rid, f"{ap.key}::`{short(uses[0], 40)}` is used under a mode distinction", branches,
+                      "" if branches else f"`{src(uses[0])}` enters the same formula in TIMES and ADJOINT_TIMES", ap, uses[0])
+    if not n:
+        ctx.und(rid, "LinearOperator.apply population", "no apply uses a volume-weighted reduction", "nifty/cl/operators")
+
+
+_run_c02z = run
+
+
+def run(ctx):  # noqa: F811
+    _run_c02z(ctx)
+    r02_14(ctx, ctx.model)
